@@ -32,6 +32,9 @@ func vShapePlain(capacity, pad, removal int) *vWorld {
 	W.create([]int{cA, cP}, Entity{}, Entity{})
 	W.standingFilters(false)
 	W.create([]int{cA, cP}, Entity{}, Entity{})
+	// {A,B,P} is populated: adding B to {A,P} (or removing B again) moves pointer-bearing rows
+	// into a destination that already holds rows
+	W.create([]int{cA, cB, cP}, Entity{}, Entity{})
 	for i := 0; i < W.n; i++ {
 		W.havocValues(i)
 	}
